@@ -9,6 +9,7 @@ import copy
 import posixpath
 
 from gen import base as G
+from gen import trashgen as TG
 from model import layout as ML
 from oracles import put as OP
 from oracles import readers as OR
@@ -104,6 +105,16 @@ def gen(rng):
         args.append(p)
     if dup and args:
         args.insert(rng.randint(0, len(args)), rng.choice(args))
+    if rng.random() < 0.02 and not deeptrash:
+        # the home trash already holds a name 100 times (name, name_1 ... name_99): the next entry of that name gets a random
+        # suffix - one of the arguments has that name
+        ht_ = G.home_trash_of(env)
+        for j in range(100):
+            tn = 'often' if j == 0 else 'often_%d' % j
+            G.add_trashed(steps, ht_, tn, TG.pct(home + '/old/often'), '2019-01-01T00:00:00', 'none', tag='c%d' % j)
+            steps.append(['f', ht_ + '/files/' + tn, 'c%d' % j, 0o644])
+        steps.append(['f', home + '/w/often', 'the 101st', 0o644])
+        args.insert(rng.randint(0, len(args)), home + '/w/often')
     cwd = rng.choice(['/', home])
     opts = []
     stdin = ''
